@@ -54,7 +54,6 @@ func (w *c04World) compute(ctx context.Context) (interface{}, error) {
 		w.res[i] = append(w.res[i], r)
 		nondet.Yield() // registering with a tracker and AddDependency are separate steps
 		AddDependency(ctx, r, nil)
-		nondet.Yield()
 		read[i] = w.version[i]
 	}
 	w.active--
@@ -101,9 +100,9 @@ func c04Run(k, writers int, withStop bool, maxRuns int, full bool) {
 		}
 		nondet.Go("writer"+strconv.Itoa(j), func() {
 			for n := 0; n < writes; n++ {
-				if n > 0 {
-					nondet.Yield() // a writer does other things between two writes
-				}
+				// a writer does other things before and between its writes (also makes
+				// the goroutine's start segment empty: see eager start in DESIGN)
+				nondet.Yield()
 				w.version[target]++
 				registered := append([]*Resource{}, w.res[target]...)
 				for _, r := range registered {
@@ -155,6 +154,7 @@ func VerifC04Witness() {
 	w := &c04World{k: 1, maxRuns: 4, res: [][]*Resource{nil}, version: []int{0}}
 	r := NewRerunner(context.Background(), w.compute, 0, false)
 	nondet.Go("writer", func() {
+		nondet.Yield()
 		w.version[0]++
 		for _, x := range append([]*Resource{}, w.res[0]...) {
 			x.Strobe()
